@@ -16,8 +16,11 @@ def text(rng, maxlen=12):
         return None
     if k < 0.2:
         return ""
-    if k < 0.5:
+    if k < 0.35:
         return rng.choice(treegen.BAD_CONTENT + [w for c in treegen.CANONICAL.values() for w in c])
+    if k < 0.5:
+        from vlib.models import content as C
+        return rng.choice(rng.choice([C.URIS, C.TIMES, C.DATES, C.BOUNDS, C.COMMON]))
     return "".join(rng.choice(TEXT_ALPH) for _ in range(rng.randint(1, maxlen)))
 
 
@@ -54,8 +57,18 @@ def freeform(rng, gen, size, max_depth=100, p_unknown=0.15):
             c = Node(rng.choice(pool))
             p.add_child(c)
             nodes.append((c, d + 1))
+    from vlib.models import content as C
+    pools = {"uriContent": C.URIS, "timeContent": C.TIMES, "yearDateContent": C.DATES, "intContent": C.BOUNDS + C.COMMON[:40],
+             "floatContent": C.BOUNDS, "floatRangeContent_EW": C.BOUNDS, "floatRangeContent_NS": C.BOUNDS, "floatContent_Nonnegative": C.BOUNDS}
     for n, _ in nodes:
         n.content = text(rng)
+        rn = gen.known.get(n.name)
+        if rn is not None and rng.random() < 0.6:
+            # typed leaf: values from the class tables of its content rule (hostile for that parser in particular)
+            for cr in emlkit.rules_table()[rn][2].get("content_rules", []):
+                if cr in pools:
+                    n.content = rng.choice(pools[cr])
+                    break
         for _ in range(rng.choice([0, 0, 0, 1, 1, 2, 3])):
             k = rng.choice(["id", "scope", "system", "lang", "directory", "unit", "packageId", "verifAttr", "", "é"])
             n.add_attribute(k, rng.choice(["document", "system", "x", "", "é", "\U0001F600", 7, None, "1 2"]))
